@@ -70,11 +70,11 @@ open Jaqal Jaqal.Sem Jaqal.Builder
 
 /-- what the four passes need of their input: both well-formedness predicates of the pass theorems (`ExpandMacros.WellFormed`:
 gate statements match their definitions, macro bodies call earlier macros only, …; `FillIn.WellFormed`: block invariants,
-header lists), and no macro named like a bounding gate of `expand_subcircuits` -/
+header lists).  (That no macro is named like a bounding gate of `expand_subcircuits` is no longer part of it: since
+`98a447d` the pass itself refuses such a circuit, `noBoundingMacro_of_ok`.) -/
 structure Legal (c : Circuit) : Prop where
   wf1 : ExpandMacros.WellFormed c = true
   wf2 : FillIn.WellFormed c
-  noBound : NoBoundingMacro c
 
 /-- the overrides of the first `fill_in_let` of a sequence -/
 def firstLet : List Pass → Option (List (String × Num))
@@ -179,7 +179,7 @@ theorem C10_canonical (ρ : Env) : ∀ (π : List Pass) (c c' : Circuit) (s : Se
       | subs =>
         rw [envAfter_subs] at hm
         obtain ⟨it, b, hb⟩ := ExpandMacros.WellFormed_body_block hL.wf1
-        have h2 := expandSubcircuits_meaning (envAfter ρ ps) c c1 it b s hb hL.noBound h1 hm
+        have h2 := expandSubcircuits_meaning (envAfter ρ ps) c c1 it b s hb h1 hm
         have := ih c1 c' (spellN s) hA ha' h2
         rw [tr_spellN] at this
         simpa [tr, hasSubs, Pass.isSubs] using this
@@ -407,9 +407,8 @@ theorem letVal_fund {ov : List (String × Num)} {rv : Bool} {v v' : Val} (h : Fi
   · obtain ⟨nf, _, h⟩ := bind_ok h
     split at h
     · obtain ⟨ni, _, h⟩ := bind_ok h
-      split at h
-      · rw [FillIn.mkQubit_eq h]; rfl
-      · obtain ⟨_, hq⟩ := FillIn.getItem_eq h; rw [hq]; rfl
+      obtain ⟨_, hq⟩ := FillIn.constIndexQubit_mk h
+      rw [FillIn.mkQubit_eq hq]; rfl
     · rw [FillIn.mkQubit_eq h]; rfl
   · split at h
     · obtain ⟨ns, _, h⟩ := bind_ok h
@@ -537,16 +536,16 @@ mutual
       exact ⟨ha.1, blocksOKList_append r b ha.2 hb⟩
 end
 
-/-- `expand_subcircuits` keeps `FillIn.WellFormed` (block invariants, header lists) and `NoBoundingMacro` -/
+/-- `expand_subcircuits` keeps `FillIn.WellFormed` (block invariants, header lists) -/
 theorem C10_legal_preserved_subs (c c' : Circuit) (hL : Legal c) (h : apply .subs c = .ok c') :
-    FillIn.WellFormed c' ∧ NoBoundingMacro c' := by
+    FillIn.WellFormed c' := by
   obtain ⟨it, b, hb⟩ := ExpandMacros.WellFormed_body_block hL.wf1
   have hbody := ExpandSubcircuits.C09_shape_body hb h
   have hmac := (ExpandSubcircuits.C09_shape h).1
   obtain ⟨hc, hr, _, _, hnames, _⟩ := ExpandSubcircuits.C09_header h
   have hp : FillIn.BlocksOK (ExpandSubcircuits.prepStmt none c) := by simp [ExpandSubcircuits.prepStmt, ExpandSubcircuits.boundGate, FillIn.BlocksOK]
   have hm : FillIn.BlocksOK (ExpandSubcircuits.measStmt none c) := by simp [ExpandSubcircuits.measStmt, ExpandSubcircuits.boundGate, FillIn.BlocksOK]
-  refine ⟨⟨?_, ?_, ?_, ?_, ?_⟩, ?_⟩
+  refine ⟨?_, ?_, ?_, ?_, ?_⟩
   · rw [hbody, hb]; exact ⟨ExpandSubcircuits.spellList (ExpandSubcircuits.prepStmt none c) (ExpandSubcircuits.measStmt none c) b, by simp [ExpandSubcircuits.spell]⟩
   · rw [hbody]; exact blocksOK_spell _ _ hp hm _
   · intro m hmem
@@ -555,10 +554,6 @@ theorem C10_legal_preserved_subs (c c' : Circuit) (hL : Legal c) (h : apply .sub
     exact blocksOK_spell _ _ hp hm _
   · rw [hc]; exact hL.wf2.consts
   · rw [hr]; exact hL.wf2.regs
-  · intro m hmem
-    rw [hmac] at hmem
-    obtain ⟨m0, hm0, rfl⟩ := List.mem_map.1 hmem
-    exact hL.noBound m0 hm0
 
 
 mutual
@@ -590,12 +585,12 @@ mutual
     | [], _ :: _, h | _ :: _, [], h => by simp [FillIn.RelList] at h
 end
 
-/-- what the rebuild of `fill_in_let` / `fill_in_map` keeps: `FillIn.WellFormed` and `NoBoundingMacro` -/
-theorem rebuilt_legal {F G : Val → M Val} {c c' : Circuit} {regs : List Val} {body : List Stmt} (hL : Legal c)
-    (hr : FillIn.Rebuilt F G c regs body c') (hregs : ∀ v ∈ regs, FillIn.isRegLike v = true) :
-    FillIn.WellFormed c' ∧ NoBoundingMacro c' := by
+/-- what the rebuild of `fill_in_let` / `fill_in_map` keeps: `FillIn.WellFormed` -/
+theorem rebuilt_legal {F G : Val → M Val} {Fm : Macro → Val → M Val} {c c' : Circuit} {regs : List Val} {body : List Stmt}
+    (hL : Legal c) (hr : FillIn.Rebuilt F Fm G c regs body c') (hregs : ∀ v ∈ regs, FillIn.isRegLike v = true) :
+    FillIn.WellFormed c' := by
   obtain ⟨ss, hc', hrel⟩ := hr.body
-  refine ⟨⟨⟨ss, hc'⟩, ?_, ?_, ?_, ?_⟩, ?_⟩
+  refine ⟨⟨ss, hc'⟩, ?_, ?_, ?_, ?_⟩
   · rw [hc', FillIn.BlocksOK]
     exact ⟨fun _ => rfl, fun h => (by cases h), Rel_blocksOKs _ _ hrel⟩
   · intro m' hm'
@@ -603,32 +598,18 @@ theorem rebuilt_legal {F G : Val → M Val} {c c' : Circuit} {regs : List Val} {
     exact Rel_blocksOK _ _ hmm.2.2
   · rw [hr.constants]; exact hL.wf2.consts
   · rw [hr.registers]; exact hregs
-  · intro m' hm'
-    obtain ⟨m, hm, hmm⟩ := FillIn.forall₂_right hr.macros m' hm'
-    rw [hmm.1]
-    exact hL.noBound m hm
 
-/-- `fill_in_let` keeps `FillIn.WellFormed` and `NoBoundingMacro` -/
+/-- `fill_in_let` keeps `FillIn.WellFormed` -/
 theorem C10_legal_preserved_let (ov : List (String × Num)) (c c' : Circuit) (hL : Legal c) (h : apply (.let_ ov) c = .ok c') :
-    FillIn.WellFormed c' ∧ NoBoundingMacro c' := by
+    FillIn.WellFormed c' := by
   obtain ⟨bs, regs, _, hregs, hr⟩ := FillIn.fillInLet_rebuilt hL.wf2 h
   exact rebuilt_legal hL hr (FillIn.mapM_all (fun a b ha hab => FillIn.letVal_regLike ha hab) hregs hL.wf2.regs)
 
-/-- `fill_in_map` keeps `FillIn.WellFormed` and `NoBoundingMacro` -/
+/-- `fill_in_map` keeps `FillIn.WellFormed` -/
 theorem C10_legal_preserved_map (c c' : Circuit) (hL : Legal c) (h : apply .map c = .ok c') :
-    FillIn.WellFormed c' ∧ NoBoundingMacro c' := by
+    FillIn.WellFormed c' := by
   obtain ⟨bs, _, hr⟩ := FillIn.fillInMap_rebuilt hL.wf2 h
   exact rebuilt_legal hL hr hL.wf2.regs
-
-/-- `expand_macros` keeps `NoBoundingMacro` (the macro table is kept or emptied) -/
-theorem C10_legal_preserved_macros_noBound (p : Bool) (c c' : Circuit) (hL : Legal c) (h : apply (.macros p) c = .ok c') :
-    NoBoundingMacro c' := by
-  have hm := (ExpandMacros.C04_header p c c' h).2.2.2.2.1
-  intro m hmem
-  rw [hm] at hmem
-  cases p with
-  | true => exact hL.noBound m hmem
-  | false => cases hmem
 
 /-- with legality preservation as a hypothesis, a legal circuit makes every sequence without `fill_in_map` applicable
 (`fill_in_map` additionally needs its side condition at its step) -/
@@ -659,39 +640,33 @@ theorem C10_legal_text_partial (cfg : Config) (ρ : Env) (π : List Pass) (c c' 
   obtain ⟨c2, hp, hmm⟩ := hC01 t ht
   exact ⟨t, c2, ht, hp, by rw [hmm]; exact C10_canonical ρ π c c' s happ ha hm⟩
 
-/-! ## The finding pinned: a macro named like a bounding gate -/
+/-! ## A macro named like a bounding gate (repaired in `98a447d`)
 
-/-- `register r[2]; macro prepare_all { G0 }; subcircuit { G1 }` (no gate set) -/
+`register r[2]; macro prepare_all { G0 }; subcircuit { G1 }` (no gate set): before the repair `expand_subcircuits ;
+expand_macros` replaced the inserted bounding statement by the macro's body while the other order kept it, so the two orders
+differed in meaning.  Now `expand_subcircuits` refuses the circuit (`C09_macro_clash`) as long as the macro is in its table:
+the order that used to go wrong is not applicable any more (after `expand_macros(preserve_definitions=False)` the table is
+empty and nothing clashes). -/
+
 def cxBound : Circuit :=
   { registers := [.regF "r" (.int 2)],
     macros := [{ name := "prepare_all", params := [], body := .block false false (.int 1) [.gate "G0" (anonDef "G0" 0) []] }],
     body := .block false false (.int 1) [.block false true (.int 1) [.gate "G1" (anonDef "G1" 0) []]] }
 
-/-- **the two orders of `expand_subcircuits` and `expand_macros` differ** on a (well-formed, parser-producible) circuit with a
-macro named `prepare_all`: `S ; M` replaces the inserted bounding statement by the macro's body, `M ; S` keeps it. The same
-happens in the real code (differential test, oracle `commute_subs_macros_when_a_macro_is_named_prepare_all`). This is
-why `Legal` demands `NoBoundingMacro`. -/
-theorem C10_counterexample_bounding_macro :
-    ExpandMacros.WellFormed cxBound = true ∧ ¬ NoBoundingMacro cxBound ∧
-    ((applySeq [.subs, .macros false] cxBound).bind (meaning [])).map Sem.flat =
-      .ok [("G0", []), ("G1", []), ("measure_all", [])] ∧
+/-- the circuit is well formed, and `expand_subcircuits` is not applicable while `prepare_all` is a macro of it -/
+theorem C10_bounding_macro_refused :
+    ExpandMacros.WellFormed cxBound = true ∧
+    applySeq [.subs, .macros false] cxBound = .error (.jaqal "bounding-name-is-a-macro") ∧
+    applySeq [.macros true, .subs] cxBound = .error (.jaqal "bounding-name-is-a-macro") ∧
     ((applySeq [.macros false, .subs] cxBound).bind (meaning [])).map Sem.flat =
       .ok [("prepare_all", []), ("G1", []), ("measure_all", [])] := by
-  refine ⟨by decide, ?_, by rfl, by rfl⟩
-  intro h
-  have := (h _ (List.mem_singleton.2 rfl)).1
-  simp at this
+  refine ⟨by decide, by rfl, by rfl, by rfl⟩
 
 /-! ## Non-vacuity -/
 
 /-- the running example of C05 / C06 (`let n 4; let k 1; register r[n]; map a r[k:n:2]; macro M x n {…}; loop k { M r[k] 2 };
 subcircuit n { X a[k] }`) is legal -/
-theorem exC_legal : Legal FillIn.exC :=
-  ⟨by decide, FillIn.exC_wellFormed, by
-    intro m hm
-    simp only [FillIn.exC, List.mem_singleton] at hm
-    subst hm
-    exact ⟨by decide, by decide⟩⟩
+theorem exC_legal : Legal FillIn.exC := ⟨by decide, FillIn.exC_wellFormed⟩
 
 /-- … a one-pass sequence is applicable from it (the later steps of longer sequences speak about the intermediate
 circuits), the pass succeeds, and the original has a meaning under the overrides: the hypotheses of `C10_canonical` are
@@ -705,7 +680,7 @@ example : Applicable [] [.subs] FillIn.exC ∧ (∃ c', apply .subs FillIn.exC =
 /-- a two-pass sequence: `expand_subcircuits` then `expand_macros` on the example of C09 (a subcircuit inside a macro and in
 the body), with the intermediate circuit computed -/
 theorem exSub_legal : Legal ExpandSubcircuits.exCircuit ∧ Legal ExpandSubcircuits.exResult := by
-  refine ⟨⟨by decide, ⟨⟨_, rfl⟩, ?_, ?_, ?_, ?_⟩, ?_⟩, ⟨by decide, ⟨⟨_, rfl⟩, ?_, ?_, ?_, ?_⟩, ?_⟩⟩
+  refine ⟨⟨by decide, ⟨⟨_, rfl⟩, ?_, ?_, ?_, ?_⟩⟩, ⟨by decide, ⟨⟨_, rfl⟩, ?_, ?_, ?_, ?_⟩⟩⟩
   all_goals first
     | (intro v hv; simp [ExpandSubcircuits.exCircuit, ExpandSubcircuits.exResult] at hv; done)
     | (intro v hv; simp only [ExpandSubcircuits.exCircuit, ExpandSubcircuits.exResult, List.mem_singleton] at hv; subst hv; first | rfl | exact ⟨by decide, by decide⟩ | simp [FillIn.BlocksOK, FillIn.BlocksOKList, ExpandSubcircuits.exF])
@@ -745,7 +720,6 @@ end Jaqal.Passes
 #print axioms Jaqal.Passes.C10_legal_preserved_subs
 #print axioms Jaqal.Passes.C10_legal_preserved_let
 #print axioms Jaqal.Passes.C10_legal_preserved_map
-#print axioms Jaqal.Passes.C10_legal_preserved_macros_noBound
 #print axioms Jaqal.Passes.C10_applicable_of_legal
 #print axioms Jaqal.Passes.C10_legal_text_partial
-#print axioms Jaqal.Passes.C10_counterexample_bounding_macro
+#print axioms Jaqal.Passes.C10_bounding_macro_refused
